@@ -374,6 +374,16 @@ def gen_hex(rng):
             lines.append(hexline(0, a, d))
             base = 0 if mode is None else (mode[1] * 16 if mode[0] == "seg" else mode[1] << 16)
             recs.append((base + a, d))
+    if not high and rng.random() < 0.35:
+        # switches of addressing mode: linear -> segment -> linear 0 -> segment, each followed by data
+        for kind, v in (("ela", rng.randrange(1, 16)), ("seg", rng.getrandbits(16) | 1), ("ela", 0), ("seg", rng.getrandbits(12))):
+            if rng.random() < 0.7:
+                lines.append(hexline(4 if kind == "ela" else 2, 0, v.to_bytes(2, "big")))
+                mode = (kind, v)
+                a = rng.getrandbits(16)
+                d = rng.randbytes(rng.randrange(1, 9))
+                lines.append(hexline(0, a, d))
+                recs.append(((mode[1] * 16 if kind == "seg" else mode[1] << 16) + a, d))
     entry = None
     c = rng.random()
     if c < 0.35:
